@@ -52,6 +52,10 @@ def parse(tool, argv):
     return parser_module.parser().parse_args(list(argv))
 
 
+# optional observer of every scripted question: f(prompt, answer)
+PROMPT_HOOK = None
+
+
 def run_cli(tool, argv, answers=None, keep_plots=False):
     """Run `evo_<tool> argv...` in process.  answers: list of strings fed to
     input(); when exhausted, the last answer is repeated ('n' if empty)."""
@@ -66,9 +70,12 @@ def run_cli(tool, argv, answers=None, keep_plots=False):
 
     def fake_input(prompt=""):
         res.prompts.append(str(prompt))
+        ans = "n"
         if answers:
-            return answers.pop(0) if len(answers) > 1 else answers[0]
-        return "n"
+            ans = answers.pop(0) if len(answers) > 1 else answers[0]
+        if PROMPT_HOOK is not None:
+            PROMPT_HOOK(str(prompt), ans)
+        return ans
 
     buf = io.StringIO()
     builtins.input = fake_input
